@@ -73,7 +73,7 @@ def run(ctx):
     K.lean_verdict(ctx)
     corrs = []
     if K.build_hx(ctx) and K.build_drv(ctx):
-        args = ["%s=%s" % (k, facts.get(k, "unknown")) for k in ("v2Fallback", "rejectsLongName")]
+        args = S.drv_args(facts)
         try:
             c = K.correspondence(ctx, "C29", args, timeout=600)
         except Exception as e:
